@@ -354,3 +354,55 @@ Proof.
 Qed.
 
 End SampleP.
+
+(* ---------- packaging of the laws, and their instance at Qc (non-vacuity; the correspondence runs at Qc) ---------- *)
+Definition field_laws {T} (K : ops T) : Prop :=
+  (forall a b, odiv K a b = omul K a (odiv K (o1 K) b)) /\
+  (forall b, b <> o0 K -> omul K b (odiv K (o1 K) b) = o1 K) /\
+  (forall a b, oeqb K a b = true <-> a = b).
+Definition order_laws {T} (K : ops T) : Prop :=
+  nn K (o0 K) /\ (forall a b, nn K a -> nn K b -> nn K (oadd K a b)).
+(* rand.choice(n, p=p) returns an index below n = len(p) *)
+Definition choice_ok {T} (ch : nat -> nat -> list T -> nat) : Prop :=
+  forall c t p, p <> [] -> ch c t p < length p.
+
+Theorem sample_chain {T} (K : ops T) : rng K -> field_laws K -> order_laws K ->
+  forall ch, choice_ok ch -> forall Y m u II P,
+  chain 1 Y 1 -> (forall idx, inb (shape Y) idx -> nn K (get K Y idx)) -> nn K u ->
+  sample K ch Y m u = Ok (II, P) ->
+  length II = m /\ length P = m /\
+  forall j, j < m ->
+    let idx := nth j II [] in let Pj := nth j P [] in
+    inb (shape Y) idx /\ length Pj = length Y /\ Forall (fun p => lsum K p = o1 K) Pj /\
+    omul K (lprod K (along (o0 K) idx Pj)) (marg0 K Y (hd O idx)) =
+      omul K (odiv K (oadd K (marg0 K Y (hd O idx)) u)
+                     (oadd K (total K Y) (bsum K (hd O (shape Y)) (fun _ => u)))) (get K Y idx) /\
+    (u = o0 K -> lprod K (along (o0 K) idx Pj) = odiv K (get K Y idx) (total K Y)) /\
+    (tl Y <> [] -> marg0 K Y (hd O idx) <> o0 K).
+Proof.
+  intros Rth (F1 & F2 & F3) (O1 & O2) ch Hch. exact (sample_spec K Rth F1 F2 F3 O1 O2 ch Hch).
+Qed.
+
+From Coq Require Import QArith Qcanon.
+Lemma OQc_field_laws : field_laws OQc.
+Proof.
+  repeat split.
+  - intros a b. cbn. unfold Qcdiv. ring.
+  - intros b Hb. cbn. unfold Qcdiv. rewrite Qcmult_1_l. now apply Qcmult_inv_r.
+  - cbn. unfold Qc_eqb. intros H. apply Qeq_bool_iff in H. now apply Qc_is_canon.
+  - cbn. unfold Qc_eqb. intros ->. apply Qeq_bool_iff. reflexivity.
+Qed.
+Lemma Qc_nn_iff (a : Qc) : nn OQc a <-> (0 <= a)%Qc.
+Proof.
+  unfold nn. cbn. unfold Qc_leb. change (Q2Qc 0) with 0%Qc.
+  unfold Qcle. rewrite Qle_alt. change (0 ?= a)%Qc with (0%Qc ?= a)%Q.
+  destruct (0%Qc ?= a)%Q; split; intros H; try discriminate; try reflexivity; try (intros E; discriminate).
+  now contradiction H.
+Qed.
+Lemma OQc_order_laws : order_laws OQc.
+Proof.
+  split.
+  - apply Qc_nn_iff. apply Qcle_refl.
+  - intros a b Ha Hb. apply Qc_nn_iff in Ha, Hb. apply Qc_nn_iff. cbn.
+    replace 0%Qc with (0 + 0)%Qc by ring. now apply Qcplus_le_compat.
+Qed.
